@@ -7,12 +7,23 @@
 
 namespace etl {
 
+namespace detail {
+// Cross-cancel before multiplying (see ratio_multiply); a zero divisor is rejected.
+template <typename R1, typename R2>
+struct ratio_divide_impl {
+    static_assert(R2::num != 0, "ratio_divide by zero");
+    static constexpr intmax_t g1 = gcd(R1::num, R2::num);
+    static constexpr intmax_t g2 = gcd(R2::den, R1::den);
+    using type = typename ratio<(R1::num / g1) * (R2::den / g2), (R1::den / g2) * (R2::num / g1)>::type;
+};
+} // namespace detail
+
 /// \brief The alias template ratio_divide denotes the result of dividing
 /// two exact rational fractions represented by the ratio specializations
 /// R1 and R2.
 /// \ingroup ratio
 template <typename R1, typename R2>
-using ratio_divide = typename ratio<R1::num * R2::den, R1::den * R2::num>::type;
+using ratio_divide = typename detail::ratio_divide_impl<R1, R2>::type;
 
 } // namespace etl
 
